@@ -137,9 +137,40 @@ class GBackend(Backend, backend_name="vtsym"):
 
     @staticmethod
     def all(tensor):
-        if isinstance(tensor, G.ElemCond):
-            return G.DataBool("all", tensor, None)
-        return G.DataBool("all", tensor, None)
+        db = G.DataBool("all", tensor, None)
+        if isinstance(tensor, G.ElemCond) and tensor.op == "==" and isinstance(tensor.rhs, (builtins.int, float)):
+            # `if tl.all(w == c)`: on the True branch every entry of w equals c; when w is a plain symbolic input this fact
+            # is used as a rewriting hypothesis for the rest of the path
+            lt = G.lift(tensor.lhs).body.terms
+            if len(lt) == 1 and not lt[0].facs and not lt[0].bound:
+                return lt[0].coef == tensor.rhs  # a constant tensor: decided without a fork
+            val = bool(db)
+            if val:
+                try:
+                    X.CONST_INPUTS[G.name_of(tensor.lhs)] = tensor.rhs
+                except EngineError:
+                    pass
+            return val
+        return db
+
+    @staticmethod
+    def prod(tensor, axis=None):
+        """product over axes of concrete size (expanded); symbolic sizes are outside the fragment"""
+        G.log("prod")
+        t = G.inst(G.lift(tensor))
+        axs = G._axes_list(t, axis)
+        body = t.body
+        for a in axs:
+            for v in t.axes[a]:
+                n = G.VSIZE[v]
+                if isinstance(n, SInt) and not n.is_const():
+                    raise EngineError("prod over an axis of symbolic size")
+                acc = None
+                for k in range(builtins.int(n)):
+                    term = body.subst({v: k})
+                    acc = term if acc is None else acc * X.rename_apart(term)
+                body = acc if acc is not None else X.const(1)
+        return G.GTensor([ax for i, ax in enumerate(t.axes) if i not in axs], body, t.dtype)
 
     @staticmethod
     def any(tensor, *a, **k):
@@ -255,7 +286,7 @@ def _undecided(name):
     return staticmethod(f)
 
 
-for _n in ("max", "min", "argmax", "argmin", "prod", "cumsum", "count_nonzero",
+for _n in ("max", "min", "argmax", "argmin", "cumsum", "count_nonzero",
            "maximum", "minimum", "svd", "eigh", "sort", "argsort", "flip", "log", "log2",
            "exp", "logsumexp", "sin", "cos", "tan", "kron_", "randn", "gamma"):
     if _n not in GBackend.__dict__:
